@@ -643,8 +643,8 @@ def run(chk):
     seqs = [(tag, d, o, True) for tag, d, o in fixed]
 
     # ---- generated sequences ----
-    n_env = 1500 if not thorough else 25000
-    n_exo = 60 if not thorough else 800          # per exotic kind
+    n_env = 1500 if not thorough else 60000
+    n_exo = 60 if not thorough else 2000         # per exotic kind
     plan = [(None, n_env)] + [(e, n_exo) for e in ("dup-ref", "stale", "space", "meta", "dup-ecu")]
     for exotic, n in plan:
         for _ in range(n):
